@@ -9,7 +9,7 @@
            "qb_loop_timer_msec_duration_to_expire (contract of the C09 timer_msec units)",
            "qb_loop_run_level by contract (may change the level counts within range, may request stop)"],
  "drops": ["qb_util_log/qb_util_perror diagnostics compiled out (stubs/nolog.h)"],
- "expect_classes": ["loop_invariant_step", "assertion"], "timeout": 120, "fallback_unwind": 7, "cbmc_flags": ["--no-malloc-may-fail"]}
+ "expect_classes": ["loop_invariant_step", "assertion"], "timeout": 300, "fallback_unwind": 7, "cbmc_flags": ["--no-malloc-may-fail"]}
 */
 /* qb_loop_run, loop contract on the main do/while (any number of iterations), sources are stubs that may
  * queue anything: in any three consecutive iterations every level is served at least once, and an
